@@ -262,6 +262,17 @@ Theorem C11_fast_leaf_correct : forall k h vals,
 Proof. exact fast_leaf_correct. Qed.
 Print Assumptions C11_fast_leaf_correct.
 
+(* ... as SIGNED integers: a stored index comes back unchanged exactly when its top bit is clear (so encode_dict must announce a
+   width whose signed range holds every code: regenerated obligation gen_encode_dict_own_reader); false without that bound *)
+Theorem C11_signed_view_exact : forall k v, (1 <= k)%nat -> v < 2 ^ (8 * N.of_nat k) ->
+  (signed_view k v = Z.of_N v <-> v < 2 ^ (8 * N.of_nat k - 1)).
+Proof. exact signed_view_exact. Qed.
+Print Assumptions C11_signed_view_exact.
+
+Theorem C11_signed_view_high_bit_refuted : exists v, v < 2 ^ 8 /\ signed_view 1 v <> Z.of_N v.
+Proof. exact signed_view_high_bit_refuted. Qed.
+Print Assumptions C11_signed_view_high_bit_refuted.
+
 (* what adequacy of a choice means *)
 Theorem C11_adequate_facts : forall w selfmade one_run d, adequate w selfmade one_run d = true ->
   match d with
